@@ -141,6 +141,9 @@ func (g *Gen) instrAlloc(f *Frame, i *ssa.Alloc) {
 	if isStruct(el) {
 		g.storeStruct(f.st, r, el, g.d.zero(el))
 		g.setVal(f, i, r)
+		if isPrivateStructAlloc(i) {
+			f.privStructs = append(f.privStructs, privStruct{i, r, el})
+		}
 		return
 	}
 	if arr, ok := types.Unalias(el).Underlying().(*types.Array); ok {
